@@ -13,7 +13,7 @@ var k2Kinds = map[string]bool{"index": true, "slice": true, "div0": true, "shift
 	"panic": true, "libpre": true, "stackneed": true, "nilfunc": true, "nilinvoke": true, "nilderef": true}
 
 // obligations tied to a piece of code structure (a loop, a call site) rather than to the function's interface
-var structuralKinds = map[string]bool{"loop-entry": true, "loop-preserved": true, "callpre": true, "closure": true, "typeinv": true}
+var structuralKinds = map[string]bool{"loop-entry": true, "loop-preserved": true, "callback-entry": true, "callback-preserved": true, "callpre": true, "closure": true, "typeinv": true}
 
 func kindOfName(name string) string {
 	i := strings.Index(name, "#")
